@@ -4,7 +4,8 @@
 From Coq Require Import List NArith Arith Bool Lia.
 From Delb.Base Require Import PyStr PyStrFacts.
 From Delb.XPath Require Import XBase Tok TokFacts Ast Parse.
-From Delb.Gen Require Import GenXPath.
+From Delb.XPath Require Import TTree.
+From Delb.Gen Require Import GenXPath GenXPathFns.
 Import ListNotations.
 
 (* ---- the audit: the source has exactly the partial operations the model accounts for ---- *)
@@ -1133,6 +1134,56 @@ Proof.
   - cbv zeta. destruct (parse_from s _); cbn [fst snd tok_cache parse_cache]; try exact H. apply cache_put_length.
 Qed.
 
+
+(* ---- the loop helpers of parser.py, translated statement by statement from the source on every run
+        (Gen/GenXPathFns.v), are the functions the model uses ---- *)
+Lemma compare_as_translated : forall tokens pat,
+  compare_tokens_with_pattern tokens pat = gen_compare_tokens_with_pattern tokens pat.
+Proof.
+  unfold gen_compare_tokens_with_pattern.
+  induction tokens as [|t r IH]; intros [|p ps]; cbn; try reflexivity.
+  destruct t as [x|g], p as [k|]; cbn; try reflexivity.
+  - destruct (tkind_eqb (t_kind x) k); cbn; [apply IH|reflexivity].
+  - apply IH.
+Qed.
+Lemma all_tokens_match_as_translated tokens pat : all_tokens_match tokens pat = gen_all_tokens_match tokens pat.
+Proof.
+  unfold all_tokens_match, gen_all_tokens_match. rewrite compare_as_translated.
+  destruct (Nat.eqb (length tokens) (length pat)); reflexivity.
+Qed.
+Lemma initial_tokens_match_as_translated tokens pat :
+  initial_tokens_match tokens pat = gen_initial_tokens_match tokens pat.
+Proof.
+  unfold initial_tokens_match, gen_initial_tokens_match. rewrite compare_as_translated, Nat.leb_antisym.
+  destruct (Nat.ltb (length tokens) (length pat)); reflexivity.
+Qed.
+Lemma partition_loop_as_translated sep : forall tokens cur out,
+  gen_partition_tokens_loop sep tokens cur out = out ++ partition_aux sep tokens cur.
+Proof.
+  induction tokens as [|t r IH]; intros cur out; cbn [gen_partition_tokens_loop partition_aux]; [reflexivity|].
+  replace (is_token t && tkind_eqb (tok_type t) sep) with (is_tok_kind sep t) by (destruct t; reflexivity).
+  destruct (is_tok_kind sep t).
+  - destruct cur as [|c cr]; cbn [null negb].
+    + apply IH.
+    + rewrite IH, <- app_assoc. reflexivity.
+  - apply IH.
+Qed.
+Lemma partition_as_translated sep tokens : partition_tokens sep tokens = gen_partition_tokens sep tokens.
+Proof. unfold gen_partition_tokens, partition_tokens. rewrite partition_loop_as_translated. reflexivity. Qed.
+Lemma expand_step_as_translated t rest result :
+  gen_expand_axes_loop (t :: rest) result = gen_expand_axes_loop rest (result ++ expand1 t).
+Proof.
+  destruct t as [[p s k]|g]; [|reflexivity].
+  destruct k; reflexivity.
+Qed.
+Lemma expand_loop_as_translated : forall tokens result,
+  gen_expand_axes_loop tokens result = result ++ expand_axes tokens.
+Proof.
+  induction tokens as [|t r IH]; intros result; [cbn; rewrite app_nil_r; reflexivity|].
+  rewrite expand_step_as_translated, IH. unfold expand_axes. cbn [flat_map]. rewrite app_assoc. reflexivity.
+Qed.
+Lemma expand_as_translated tokens : expand_axes tokens = gen_expand_axes tokens.
+Proof. unfold gen_expand_axes. rewrite expand_loop_as_translated. reflexivity. Qed.
 
 (* ---- cached_property: a stored value is the value a fresh computation gives ---- *)
 Lemma cached_properties_as_modelled : cached_properties = expected_cached_properties.
